@@ -12,6 +12,7 @@ import (
 	"encoding/hex"
 	"fmt"
 	"math/rand"
+	"sort"
 	"strings"
 	"unicode/utf8"
 
@@ -219,7 +220,7 @@ func (g *storageGen) queryStep() (map[string]interface{}, interface{}, string) {
 	var q map[string]interface{}
 	var resp interface{}
 	kind := ""
-	switch n := r.Intn(26); {
+	switch n := r.Intn(31); {
 	case n < 2:
 		kind = "file"
 		m, o, st := anyFile()
@@ -487,6 +488,98 @@ func (g *storageGen) queryStep() (map[string]interface{}, interface{}, string) {
 				return listed("forms", formsA(res.Attestations), nk, tot), nil
 			})
 		}
+	case n == 26:
+		a := anyProver()
+		if r.Intn(2) == 0 {
+			kind = "freeSpace"
+			q = map[string]interface{}{"freeSpace": map[string]interface{}{"address": a}}
+			resp = safely(func() (interface{}, error) {
+				res, err := k.FreeSpace(w, &sttypes.QueryFreeSpace{Address: a})
+				if err != nil {
+					return nil, err
+				}
+				return map[string]interface{}{"num": map[string]interface{}{"v": res.Space}}, nil
+			})
+		} else {
+			kind = "storeCount"
+			q = map[string]interface{}{"storeCount": map[string]interface{}{"address": a}}
+			resp = safely(func() (interface{}, error) {
+				res, err := k.StoreCount(w, &sttypes.QueryStoreCount{Address: a})
+				if err != nil {
+					return nil, err
+				}
+				return map[string]interface{}{"num": map[string]interface{}{"v": res.Count}}, nil
+			})
+		}
+	case n == 27:
+		kind = "priceCheck"
+		d := []int64{-1, 0, 1, 29, 30, 31, 59, 60, 365, 366, 730, 36500, 106751, 106752, 213503, 1 << 40, 1<<63 - 1}[r.Intn(17)]
+		b := []int64{-5, 0, 1, 999999, 1000000, 1500000, 1 << 30, 3 << 40, 1 << 50, 9223372036854775, 9223372036854776, 1<<63 - 1}[r.Intn(12)]
+		if r.Intn(3) == 0 {
+			d = int64(30 + r.Intn(4000))
+			b = r.Int63n(1 << 45)
+		}
+		q = map[string]interface{}{"priceCheck": map[string]interface{}{"duration": d, "bytes": b, "jklPrice": g.jklPriceRaw()}}
+		resp = safely(func() (interface{}, error) {
+			res, err := k.PriceCheck(w, &sttypes.QueryPriceCheck{Duration: d, Bytes: b})
+			if err != nil {
+				return nil, err
+			}
+			return map[string]interface{}{"num": map[string]interface{}{"v": res.Price}}, nil
+		})
+	case n == 28 || n == 29:
+		switch r.Intn(3) {
+		case 0:
+			kind = "activeProviders"
+			q = map[string]interface{}{"activeProviders": map[string]interface{}{}}
+			resp = safely(func() (interface{}, error) {
+				res, err := k.ActiveProviders(w, &sttypes.QueryActiveProviders{})
+				if err != nil {
+					return nil, err
+				}
+				l := []string{}
+				for _, p := range res.Providers {
+					l = append(l, p.Address)
+				}
+				return map[string]interface{}{"strs": map[string]interface{}{"l": l}}, nil
+			})
+		case 1:
+			kind = "networkSize"
+			q = map[string]interface{}{"networkSize": map[string]interface{}{}}
+			resp = safely(func() (interface{}, error) {
+				res, err := k.NetworkSize(w, &sttypes.QueryNetworkSize{})
+				if err != nil {
+					return nil, err
+				}
+				return map[string]interface{}{"num": map[string]interface{}{"v": res.Size_}}, nil
+			})
+		default:
+			kind = "availableSpace"
+			q = map[string]interface{}{"availableSpace": map[string]interface{}{}}
+			resp = safely(func() (interface{}, error) {
+				res, err := k.AvailableSpace(w, &sttypes.QueryAvailableSpace{})
+				if err != nil {
+					return nil, err
+				}
+				return map[string]interface{}{"num": map[string]interface{}{"v": res.Size_}}, nil
+			})
+		}
+	case n == 30:
+		kind = "storageStats"
+		q = map[string]interface{}{"storageStats": map[string]interface{}{}}
+		resp = safely(func() (interface{}, error) {
+			res, err := k.StorageStats(w, &sttypes.QueryStorageStats{})
+			if err != nil {
+				return nil, err
+			}
+			plans := [][2]int64{}
+			for pk, pn := range res.UsersByPlan {
+				plans = append(plans, [2]int64{pk, pn})
+			}
+			sort.Slice(plans, func(i, j int) bool { return plans[i][0] < plans[j][0] })
+			return map[string]interface{}{"stats": map[string]interface{}{"purchased": res.Purchased, "used": res.Used,
+				"usedRatio": BigNum{res.UsedRatio.BigInt()}, "activeUsers": res.ActiveUsers, "uniqueUsers": res.UniqueUsers, "usersByPlan": plans}}, nil
+		})
 	default:
 		forms := k.GetAllReport(ctx)
 		m, o, st := anyFile()
